@@ -508,6 +508,21 @@ class C16Serialise(Checker):
     the same infoset as that subtree inside its parent's."""
 
     def after(self, w, op, ev):
+        if op['op'] == 'TO_STRING' and ev['r'] == 'exc' and ev['t'] == 'XSDAttributeRequiredException':
+            # every required attribute of every checked element of the subtree holds an accepted value (the empty
+            # string is a value): serialisation must not refuse for a missing attribute
+            node = w.node(op['p'])
+            if node is not None:
+                missing = []
+                for n in node.walk():
+                    if n.xsd_check and n.sid not in _TAINT:
+                        for a, d in spec.attributes_of_element(n.name).items():
+                            if d['required'] and a not in n.attrs and not (a.startswith('xlink:') or a in ('xml:lang',)):
+                                missing.append((n.name, a))
+                if not missing:
+                    empties = [(n.name, a) for n in node.walk() for a, v in n.attrs.items() if v == '' or v == 0]
+                    w.violate('C16', 'accepted-value-not-serialised', {'elem': node.name, 'exc': ev['t'], 'falsy_values': empties[:4]})
+            return
         if op['op'] != 'TO_STRING' or ev['r'] != 'ok':
             return
         node = w.node(op['p'])
@@ -878,6 +893,15 @@ class C18Unchecked(Checker):
                     if et is not None and not m.accepts([x.tag for x in et]):
                         if not w.c18_tainted(node):
                             w.violate('C18', 'nested-checked-serialised-incomplete', {'elem': node.name, 'word': [x.tag for x in et]})
+        if k == 'TO_STRING' and ev['r'] == 'ok' and 'p' in op:
+            node = w.node(op['p'])
+            if node is not None and node.xsd_check and any(not n.xsd_check for n in node.walk()):
+                et = parse_children(w.text)
+                if et is not None:
+                    w.count('c18.mixed_outputs_judged')
+                    bad = check_tree_valid(node, et, top=True)
+                    if bad and bad[1].get('elem') != node.name:
+                        w.violate('C18', 'nested-checked-serialised-incomplete', dict(bad[1], serialised_from=node.name))
         if op.get('c18twin') and ev['r'] == 'ok' and k == 'TO_STRING':
             # byte-identity with the checked twin: program serialises the unchecked doc then the checked
             # twin (same children supplied in a schema-valid order)
